@@ -213,7 +213,13 @@ async def remove_samples(
             _pending_remove_samples.append((port, from_timestamp, to_timestamp))
     else:
         port_ids = [p.get_id() for p in ports]
-        return await persist.remove_samples(_PERSIST_COLLECTION, port_ids, from_timestamp, to_timestamp)
+        count = await persist.remove_samples(_PERSIST_COLLECTION, port_ids, from_timestamp, to_timestamp)
+
+        # Invalidate again: samples looked up while the removal was in progress may have been cached meanwhile
+        for port in ports:
+            _samples_cache.pop(port.get_id(), None)
+
+        return count
 
 
 async def reset() -> None:
